@@ -129,6 +129,15 @@ def run(ctx):
                           "an element / value deserialization site does not attach use-site and definition-site locations to its errors", config, ctx.where(f, b))
                 if okm:
                     ctx.check(order_ok, "SIBLING", key + ":order", "arguments are (use-site, definition-site)", "use-site and definition-site are swapped or replaced in the call to attach_alias_locations_if_missing", config, ctx.where(f, b))
+            # the definition site is the *peeked node's own* location (the cursor's last_location is only the fallback for an
+            # exhausted stream: on a replay buffer peek() does not move it, so it still names the key just consumed)
+            for li, l in enumerate(f.d["locals"]):
+                if l.get("name") == "defined_location":
+                    with f.deep():
+                        dsym = f.sym_local(li)
+                    r = render(dsym)
+                    ctx.check("peek(" in r, "DOM", "C16:DOM:defined-from-peeked-node:%s" % f.name, "defined_location is read from the peeked event",
+                              "%s takes the definition site from `%s` rather than from the peeked event: for nodes served from a replay buffer (merge-derived values) it is the preceding key's position" % (f.name, r[:90]), config, ctx.where(f))
             # both locations are captured before the nested deserialization consumes the node
             for b, t in seeds:
                 refs = [rb for rb, rt in f.calls() if last_seg(fx.callee_decl(rt)) == "reference_location"]
@@ -257,3 +266,19 @@ def rule_locate_once(ctx, fx, config, prop="C16"):
             ctx.check(okg, "LOCATE-ONCE", "%s:LOCATE-ONCE:%s" % (prop, f.npath.split("::")[-1]), "the location is attached only to an error that has none",
                       "%s overwrites the location of every error coming out of the nested deserialization with the start of the enclosing node: a duplicate key inside a composite key is reported at the composite key's start, not at the repeated key" % f.npath, config, ctx.where(f, b))
     ctx.floor("LOCATE-ONCE.sites", n, 1, config)
+
+
+def rule_defined_from_peek(ctx, fx, config, prop="C18"):
+    """shared with C18: the recorded definition site of a map value comes from the peeked node."""
+    n = 0
+    for f in sorted(fx.fns.values(), key=lambda f: f.npath):
+        if f.name != "next_value_seed" or not f.file.endswith("src/de.rs") or "EmptyMap" in f.npath:
+            continue
+        for li, l in enumerate(f.d["locals"]):
+            if l.get("name") == "defined_location":
+                n += 1
+                with f.deep():
+                    r = render(f.sym_local(li))
+                ctx.check("peek(" in r, "DOM", "%s:DOM:defined-from-peeked-node:%s" % (prop, f.name), "defined_location is read from the peeked event",
+                          "%s takes the definition site from `%s` rather than from the peeked event" % (f.name, r[:90]), config, ctx.where(f))
+    ctx.floor("DOM.defined-location-sites", n, 1, config)
